@@ -69,7 +69,7 @@ def gen_case(rng, i, tier):
     ndocs = rng.choice([1, 1, 2, 3])
     docs = []
     for k in range(ndocs):
-        d = gen.tree(rng, 3, 3, nulls=False, root='map', keys=KEYS)
+        d = gen.tree(rng, 3, 3, nulls=(rng.random() < 0.35), root='map', keys=KEYS)
         d['name'] = 'n%d' % k
         d['tpl'] = gen.tree(rng, 2, 3, nulls=False, root='map', keys=KEYS)
         docs.append(d)
@@ -233,6 +233,10 @@ def check_case(ctx, case):
         expect_fail = broken
     else:
         ref = clone(get_path(docs[td], plan['tpath']))
+        if ref is None:
+            res.labels.add('target:null')
+            if form in ('map-merge', 'list-merge'):
+                return res.skip('null referenced value merged onto local content (statement silent)')
         notes = model.Notes()
         try:
             if form == 'map-merge':
